@@ -191,6 +191,49 @@ Definition paste_doc (d : doc) (data : str) (ty mode count : Z) : doc :=
 Definition paste_footprint (ty count : Z) : Z :=
   if count <? 1 then 0 else if ty =? 0 then 0 else 2.
 
+(* Document.cut_selection() with selection = SelectionState(orig, type) outside a
+   running application (vi_mode() is False: upper bounds are exclusive): the
+   (text, cursor) of the new Document.  ty 0 CHARACTERS, 1 LINES, 2 BLOCK. *)
+Definition c_rfind_to (c : Z) (s : str) (e : Z) : Z :=
+  let pre := slice_to s e in
+  let p := find_char c (rev pre) in
+  if p <? 0 then -1 else len pre - 1 - p.
+Definition c_find_at (c : Z) (s : str) (st : Z) : Z :=
+  let p := find_char c (slice_from s st) in
+  if p <? 0 then -1 else adj_index (len s) st + p.
+Fixpoint c_range (from : Z) (n : nat) : list Z :=
+  match n with O => [] | S k => from :: c_range (from + 1) k end.
+
+Definition cut_ranges (d : doc) (o ty : Z) : list (Z * Z) :=
+  let from_ := Z.min (dcur d) o in
+  let to := Z.max (dcur d) o in
+  if ty =? 2 then
+    let '(fl, fc0) := translate_index_to_position d from_ in
+    let '(tl, tc0) := translate_index_to_position d to in
+    let fc := Z.min fc0 tc0 in
+    let tc := Z.max fc0 tc0 in
+    flat_map (fun l =>
+                let ll := len (nth (Z.to_nat l) (lines d) []) in
+                if fc <=? ll
+                then [(translate_row_col_to_index d l fc, translate_row_col_to_index d l (Z.min ll tc))]
+                else [])
+             (c_range fl (Z.to_nat (tl + 1 - fl)))
+  else if ty =? 1 then
+    [(Z.max 0 (c_rfind_to NL (dtext d) from_ + 1),
+      let p := c_find_at NL (dtext d) to in if 0 <=? p then p else len (dtext d) - 1)]
+  else [(from_, to)].
+
+Definition c_cut_step (text : str) (acc : Z * Z * str) (r : Z * Z) : Z * Z * str :=
+  let '(last_to, newcur, rem) := acc in
+  let '(f, t) := r in
+  (t, (if last_to =? 0 then f else newcur), rem ++ slice2 text last_to f).
+
+Definition cut_doc (d : doc) (o ty : Z) : doc :=
+  let '(last_to, newcur, rem) := fold_left (c_cut_step (dtext d)) (cut_ranges d o ty) (0, dcur d, []) in
+  mkdoc (rem ++ slice_from (dtext d) last_to) newcur.
+
+Definition cut_footprint (ty : Z) : Z := if ty =? 2 then 2 else 0.
+
 Definition slots := list (Z * doc).
 Fixpoint sget (s : slots) (i : Z) : option doc :=
   match s with
@@ -235,7 +278,8 @@ Inductive sop : Type :=
 | SPaste (src dst : Z) (data : str) (ty mode count : Z)
 | SInsAfter (src dst : Z) (t : str)
 | SInsBefore (src dst : Z) (t : str)
-| SCopy (src dst : Z).
+| SCopy (src dst : Z)
+| SCut (src dst : Z) (o ty : Z).
 
 Inductive sval : Type :=
 | SVNone | SVErr | SVLines (l : list str) | SVIndexes (l : list Z) | SVDoc (d : doc).
@@ -290,6 +334,11 @@ Definition sstep (st : slots * cache) (o : sop) : sval * (slots * cache) :=
       | Some d => produce s c dst (mkdoc (dtext d) (dcur d))
       | None => (SVNone, st)
       end
+  | SCut src dst o ty =>
+      match sget s src with
+      | Some d => produce s (touch c (dtext d) (cut_footprint ty)) dst (cut_doc d o ty)
+      | None => (SVNone, st)
+      end
   end.
 
 (* the same operation on documents WITHOUT any cache *)
@@ -309,6 +358,8 @@ Definition sfree (s : slots) (o : sop) : sval * slots :=
       match sget s src with Some d => prod dst (mkdoc (t ++ dtext d) (dcur d + len t)) | None => (SVNone, s) end
   | SCopy src dst =>
       match sget s src with Some d => prod dst (mkdoc (dtext d) (dcur d)) | None => (SVNone, s) end
+  | SCut src dst o ty =>
+      match sget s src with Some d => prod dst (cut_doc d o ty) | None => (SVNone, s) end
   end.
 
 Fixpoint srun (st : slots * cache) (ops : list sop) : list sval * (slots * cache) :=
@@ -380,6 +431,8 @@ Definition decode_sop (s : sx) : option sop :=
   | L [A 7; A src; A dst; t] => match as_str t with Some t => Some (SInsAfter src dst t) | None => None end
   | L [A 8; A src; A dst; t] => match as_str t with Some t => Some (SInsBefore src dst t) | None => None end
   | L [A 9; A src; A dst] => Some (SCopy src dst)
+  | L [A 10; A src; A dst; A o; A ty] =>
+      if (0 <=? ty) && (ty <=? 2) && (0 <=? o) then Some (SCut src dst o ty) else None
   | _ => None
   end.
 
@@ -390,7 +443,7 @@ Definition sop_text (before after : slots) (o : sop) : str :=
   | SNew i _ _ => of after i
   | SLines i | SIndexes i | SQuery i _ => of after i
   | SDrop i => of before i
-  | SPaste _ dst _ _ _ _ | SInsAfter _ dst _ | SInsBefore _ dst _ | SCopy _ dst => of after dst
+  | SPaste _ dst _ _ _ _ | SInsAfter _ dst _ | SInsBefore _ dst _ | SCopy _ dst | SCut _ dst _ _ => of after dst
   end.
 
 (* a produced document with a negative cursor is outside the property *)
